@@ -132,14 +132,12 @@ func (s *Statement) commitEvict(reclaimee *pod_info.PodInfo, evictOp evictOperat
 			reclaimee.Namespace, reclaimee.Name, reclaimee.Job)
 	}
 
-	previousStatus := reclaimee.Status
-	previousGpuGroup := reclaimee.GPUGroups
-	previousResourceClaimInfo := reclaimee.ResourceClaimInfo
-	previousIsVirtualStatus := reclaimee.IsVirtualStatus
 	if err := s.ssn.Cache.Evict(reclaimee.Pod, reclaimeePodGroup, evictOp.evictionMetadata, evictOp.message); err != nil {
 		log.InfraLogger.Errorf("Failed to evict task <%v/%v>: %v.", reclaimee.Namespace, reclaimee.Name, err)
-		if e := s.unevict(reclaimee, previousStatus, evictOp.previousNode, previousGpuGroup, previousResourceClaimInfo,
-			previousIsVirtualStatus); e != nil {
+		// The task is already releasing in the session (it was evicted virtually when the operation was recorded):
+		// what has to be restored is the state it had before that, which the operation holds.
+		if e := s.unevict(reclaimee, evictOp.previousStatus, evictOp.previousNode, evictOp.previousGpuGroups,
+			evictOp.previousResourceClaimInfo, false); e != nil {
 			log.InfraLogger.Errorf("Failed to un-evict task <%v/%v>: %v.",
 				reclaimee.Namespace, reclaimee.Name, e)
 		}
